@@ -266,6 +266,7 @@ NextSetFrag == \E b \in FragModes : SetFrag(b)
 Next == \/ NextRx \/ NextPacketOut \/ NextPacketOutBuf \/ NextFlowMod \/ FlowDel
         \/ NextPortMod \/ NextPortModBad \/ NextSetFrag
 
+NextB == Len(hist) < D /\ Next                  \* all-paths export: stop at depth D
 Spec == Init /\ [][Next]_vars
 
 ----------------------------------------------------------------------------
